@@ -43,11 +43,22 @@ pub fn run(pid: &str) {
         }
         if let Ok(v) = serde_json::from_str::<Value>(l) {
             pre.1 += 1;
+            if pid == "C01" {
+                // heartbeat for the watchdog: a saved input may be one that does not terminate
+                let b = v.get("hex").and_then(|h| h.as_str()).and_then(crate::bits::unhex).unwrap_or_default();
+                crate::total::begin_case(0, &b);
+            }
             for mut f in dispatch(pid, &v) {
                 f.msg = format!("[saved regression case] {}", f.msg);
                 pre.0.push(f);
             }
         }
+    }
+}
+
+pub fn done(pid: &str) {
+    if pid == "C01" {
+        crate::total::end_worker(0);
     }
 }
 
